@@ -61,9 +61,36 @@ def fact_prod(s):
     return p
 
 
+def is_mixed(state):
+    """annotated (tag != 0) and un-annotated (tag 0) photons in one state"""
+    flat = [t for mode in state for t in mode]
+    return 0 in flat and any(flat)
+
+
+def eff(state):
+    """the state the Simulator effectively works on when annotated and un-annotated photons are mixed (the rule of the
+    native `separate_state` / `get_photon_annotation(0)`, Model/C03Mixed.lean `native`; written here independently of
+    Lean and compared with the real objects in `judge_bs`): un-annotated photons join the group of the first
+    annotation (order of first occurrence among the annotated photons; inside a mode annotated photons come first,
+    sorted); with ONE annotation present the single group is labelled by the first photon.  The identity on every
+    other state."""
+    if not is_mixed(state):
+        return state
+    nz = []
+    for mode in state:
+        for t in sorted(x for x in mode if x):
+            if t not in nz:
+                nz.append(t)
+    if len(nz) == 1:
+        first = next(mode for mode in state if mode)
+        lab = min(x for x in first if x) if any(first) else 0
+        return [[lab] * len(mode) for mode in state]
+    return [sorted(nz[0] if t == 0 else t for t in mode) for mode in state]
+
+
 def tags_of(state):
     seen = []
-    for mode in state:
+    for mode in eff(state):
         for t in mode:
             if t not in seen:
                 seen.append(t)
@@ -71,7 +98,7 @@ def tags_of(state):
 
 
 def group_of(tag, state):
-    return [mode.count(tag) for mode in state]
+    return [mode.count(tag) for mode in eff(state)]
 
 
 def occ(state):
@@ -112,7 +139,9 @@ def build_bs(state):
         return pcvl.BasicState([len(mode) for mode in state])
     parts = []
     for mode in state:
-        parts.append("".join("{_:%d}" % (t - 1) for t in mode) if mode else "0")
+        ann = "".join("{_:%d}" % (t - 1) for t in mode if t)
+        plain = sum(1 for t in mode if not t)
+        parts.append((ann + (str(plain) if plain else "")) if mode else "0")
     return pcvl.BasicState("|" + ",".join(parts) + ">")
 
 
@@ -199,11 +228,18 @@ def gen_circuit_spec(rng, m, depth):
     return {"m": m, "comps": comps}
 
 
-def gen_state(rng, m, n, ntags):
-    """n photons on m modes; ntags = 0: un-annotated, else every photon gets a tag in 1..ntags"""
-    st = [[] for _ in range(m)]
-    for _ in range(n):
-        st[rng.randrange(m)].append(0 if ntags == 0 else rng.randint(1, ntags))
+def gen_state(rng, m, n, ntags, mixed=False):
+    """n photons on m modes; ntags = 0: un-annotated, else every photon gets a tag in 1..ntags; `mixed`: a photon is
+    un-annotated with probability 2/5 (states mixing annotated and un-annotated photons)"""
+    for _ in range(6 if mixed else 1):
+        st = [[] for _ in range(m)]
+        for _ in range(n):
+            tag = 0 if ntags == 0 else rng.randint(1, ntags)
+            if mixed and rng.random() < 0.35:
+                tag = 0
+            st[rng.randrange(m)].append(tag)
+        if not mixed or n < 2 or is_mixed(st):
+            break
     return [sorted(x) for x in st]
 
 
@@ -251,7 +287,7 @@ def gen_coef(rng):
             return [core.rat(re), core.rat(im)]
 
 
-def gen_terms(rng, m, nmax, ntags, k, equal_n, used):
+def gen_terms(rng, m, nmax, ntags, k, equal_n, used, mixed=False):
     """k distinct basis states (not in `used`), with rescaled rational coefficients"""
     terms = []
     n0 = rng.randint(1, nmax)
@@ -259,7 +295,7 @@ def gen_terms(rng, m, nmax, ntags, k, equal_n, used):
     while len(terms) < k and tries < 200:
         tries += 1
         n = n0 if equal_n else rng.randint(0, nmax)
-        st = gen_state(rng, m, n, ntags)
+        st = gen_state(rng, m, n, ntags, mixed)
         key = canon_key(st)
         if key in used:
             continue
@@ -475,7 +511,7 @@ def add_overlaps(rng, m, nm, ntags, members):
     return members
 
 
-def gen_case(rng, chk, kind, prec, fixed=None):
+def gen_case(rng, chk, kind, prec, fixed=None, mixed=False):
     big = chk.thorough
     m = rng.choice([2, 3, 3, 4] if not big else [2, 3, 3, 4, 4, 5])
     if fixed:
@@ -488,13 +524,17 @@ def gen_case(rng, chk, kind, prec, fixed=None):
     if kind == "bs":
         n = rng.choice([0, 1, 2, 2, 3, 3, nmax, nmax])
         ntags = rng.choice([0, 1, 2, 2, 3, 3, 4])
-        st = gen_state(rng, m, n, ntags)
+        if mixed:
+            # annotated and un-annotated photons in one state (native rule, Model/C03Mixed.lean)
+            n = rng.choice([2, 3, 3, nmax, nmax])
+            ntags = rng.choice([1, 2, 2, 3, 3])
+        st = gen_state(rng, m, n, ntags, mixed)
         case["members"] = [{"w": "1", "terms": [{"coef": ["1", "0"], "state": st}]}]
         case["outs"] = gen_outs(rng, m, [st], 6)
     elif kind == "sv":
-        ntags = rng.choice([0, 0, 1, 2, 3])
+        ntags = rng.choice([0, 0, 1, 2, 3]) if not mixed else rng.choice([1, 2, 2, 3])
         nm = min(nmax, 3)
-        terms = gen_terms(rng, m, nm, ntags, rng.randint(2, 3), rng.random() < 0.5, set())
+        terms = gen_terms(rng, m, nm, ntags, rng.randint(2, 3), rng.random() < 0.5, set(), mixed)
         if len(terms) < 2:
             terms = [{"coef": ["1", "0"], "state": [[0]] + [[] for _ in range(m - 1)]},
                      {"coef": ["1/2", "1"], "state": [[] for _ in range(m - 1)] + [[0]]}]
@@ -505,14 +545,14 @@ def gen_case(rng, chk, kind, prec, fixed=None):
     elif kind == "svd":
         k = rng.randint(2, 5)
         superposed = rng.random() < 0.5
-        ntags = rng.choice([0, 1, 2, 3])
+        ntags = rng.choice([0, 1, 2, 3]) if not mixed else rng.choice([1, 2, 2, 3])
         nm = min(nmax, 3)
         used = set()
         members = []
         ws = gen_weights(rng, k, normalised=(rng.random() < 0.7))
         for w in ws:
             nt = rng.randint(2, 3) if (superposed and rng.random() < 0.6) else 1
-            terms = gen_terms(rng, m, nm, ntags, nt, rng.random() < 0.5, used)
+            terms = gen_terms(rng, m, nm, ntags, nt, rng.random() < 0.5, used, mixed)
             if not terms:
                 continue
             if len(terms) == 1:
@@ -529,7 +569,7 @@ def gen_case(rng, chk, kind, prec, fixed=None):
             # p_threshold/(10·prob0) bite inside them
             for _ in range(rng.randint(1, 3)):
                 nt = rng.randint(2, 3) if superposed else 1
-                terms = gen_terms(rng, m, nm, max(ntags, 2), nt, rng.random() < 0.5, used)
+                terms = gen_terms(rng, m, nm, max(ntags, 2), nt, rng.random() < 0.5, used, mixed)
                 if terms:
                     if len(terms) == 1:
                         terms[0]["coef"] = ["1", "0"]
@@ -540,7 +580,7 @@ def gen_case(rng, chk, kind, prec, fixed=None):
             # recombination of their groups runs with a threshold that must stay negligible at this precision
             if superposed:
                 for _ in range(rng.randint(1, 2)):
-                    terms = gen_terms(rng, m, nm, max(ntags, 2), rng.randint(2, 3), True, used)
+                    terms = gen_terms(rng, m, nm, max(ntags, 2), rng.randint(2, 3), True, used, mixed)
                     if len(terms) >= 2:
                         members.append({"w": core.rat(Fraction(rng.choice([1, 3, 10, 40, 137, 300]), 1000)),
                                         "terms": terms})
@@ -677,9 +717,10 @@ def lean_request(case, u):
     base = {"m": case["m"], "U": core.mat(u.tolist())}
     if kind in ("bs", "bad-modes"):
         st = case["members"][0]["terms"][0]["state"]
-        return dict(base, op="bs", state=real_state(st), outs=case.get("outs", []))
+        return dict(base, op="bs", state=real_state(st), outs=[real_state(o) for o in case.get("outs", [])])
     if kind == "sv":
-        return dict(base, op="sv", terms=lean_members(case, False)[0]["terms"], outs=case["outs"], cut2=core.rat(CUT2))
+        return dict(base, op="sv", terms=lean_members(case, False)[0]["terms"],
+                    outs=[real_state(o) for o in case["outs"]], cut2=core.rat(CUT2))
     if kind == "svd":
         if case["prec"] == "default":
             return dict(base, op="svd", members=lean_members(case, True), prec=core.rat(DEFAULT_PREC),
@@ -1212,6 +1253,26 @@ def judge_bs(chk, case, rep, sim, circuit, u, record):
     sep = sorted(tuple(x) for x in bs.separate_state(keep_annotations=False))
     if sep != sorted(tuple(g) for g in groups):
         raise Bad("separate-state", f"separate_state gives {sep}, model groups {groups}")
+    # the annotation of every group (`_annot_state_mapping`: native separate_state(keep_annotations=True) and
+    # get_photon_annotation(0)) is the modelled one; for a state mixing annotated and un-annotated photons this is the
+    # native rule of Model/C03Mixed.lean (`native`, theorem separate_native_groups)
+    from perceval.simulators._simulator_utils import _annot_state_mapping
+    real_map = sorted((0 if str(a) == "" else int(str(a).split(":")[1]) + 1, tuple(g))
+                      for a, g in _annot_state_mapping(build_bs(st)).items())
+    if real_map != sorted((t, tuple(g)) for t, g in rep["annot"]):
+        raise Bad("annot-state-mapping", f"_annot_state_mapping({bs}) gives {real_map}, model {rep['annot']}")
+    if [sorted(x) for x in rep["native"]] != [sorted(x) for x in eff(st)] \
+            or sorted(map(tuple, rep["mixedGroups"])) != sorted(tuple(g) for g in groups):
+        raise Bad("model-internal", "the relabelled state / the written-out groups differ inside the model or from the "
+                  "harness's own evaluation of the rule")
+    if is_mixed(st):
+        chk.branch("mixed-bs")
+        if len(tags) >= 2:
+            chk.branch("mixed-multi-group")
+        elif tags == [0]:
+            chk.branch("mixed-one-group-unlabelled")
+        else:
+            chk.branch("mixed-one-group-labelled")
     exact = exact_dist(rep["probs"])
     spec = py_probs(py_term_amps(u, m, st), m)
     spec_ok = cmp_dist(spec, exact, 1e-7) is None
@@ -1263,6 +1324,8 @@ def judge_bs(chk, case, rep, sim, circuit, u, record):
     # prob_amplitude on annotated outputs
     for out, (num, fp) in zip(case["outs"], rep["pa"]):
         ob = build_bs(out)
+        if is_mixed(out):
+            chk.branch("mixed-out")
         o = complex(sim.prob_amplitude(build_bs(st), ob))
         e = core.uncx(num) / math.sqrt(fp)
         chk.branch("pa-zero" if e == 0 else "pa-nonzero")
@@ -1279,7 +1342,7 @@ def judge_bs(chk, case, rep, sim, circuit, u, record):
     # merge order: relabel the tags by a permutation (groups are merged in another order)
     if len(tags) >= 2:
         perm = dict(zip(tags, tags[1:] + tags[:1]))
-        st2 = [sorted(perm[t] for t in mode) for mode in st]
+        st2 = [sorted(perm[t] for t in mode) for mode in eff(st)]
         obs2 = bsd_to_dict(make_sim(case["engine"], circuit, 0).probs(build_bs(st2)))
         d = cmp_dist(obs2, exact)
         if d:
@@ -1297,6 +1360,8 @@ def judge_sv(chk, case, rep, sim, circuit, u, record):
     chk.branch("sv-unequal-n" if len(ns) > 1 else "sv-equal-n")
     if any(tags_of(t["state"]) not in ([], [0]) for t in terms):
         chk.branch("sv-tagged")
+    if any(is_mixed(t["state"]) for t in terms):
+        chk.branch("mixed-sv")
     wk = weak_info(case["members"])
     if "weak-term" in wk:
         chk.branch("sv-weak-term")
@@ -1522,6 +1587,8 @@ def judge_svd(chk, case, rep, sim, circuit, u, record):
     members = case["members"]
     default = case["prec"] == "default"
     chk.branch("svd-generic" if rep["superposed"] else "svd-fast")
+    if any(is_mixed(t["state"]) for mb in members for t in mb["terms"]):
+        chk.branch(("mixed-svd-generic" if rep["superposed"] else "mixed-svd-fast") + ("-default-precision" if default else ""))
     if any(len(set(sum(len(x) for x in t["state"]) for t in mb["terms"])) > 1 for mb in members):
         chk.branch("svd-split")
     ov = overlap_info(members)
@@ -1988,8 +2055,11 @@ def run(chk: core.Check):
         "amplitudes of one group of indistinguishable photons (C02)",
         "exqalibur's BasicState.separate_state / merge / partition / StateVector arithmetic are native: modelled and "
         "compared on every case, not verified",
-        "every photon of a tagged state carries a tag `_:k` (the native rule that attaches un-tagged photons to the first "
-        "tagged group is not modelled); no heralds, post-selection, detectors or photon filter (C04)",
+        "states mixing annotated and un-annotated photons follow the native rule (un-annotated photons join the group of "
+        "the first annotation; a single group is labelled by its first photon): modelled (`native`), compared on every "
+        "case with separate_state / _annot_state_mapping of the real objects, not verified; two natively distinct basis "
+        "states of one superposition that the rule maps to the same labelled groups (|{_:0},1> and |{_:0},{_:0}>) are "
+        "not generated; no heralds, post-selection, detectors or photon filter (C04)",
         "members of a mixture are pairwise distinct state vectors (they may share basis states); two parts of a mixture "
         "(members, photon-number sectors) that are the same normalised vector are presented only when both are a "
         "single basis state with a real positive coefficient (one dict key, deterministically); positively "
@@ -2023,7 +2093,10 @@ def run(chk: core.Check):
                              "pa-zero", "pa-nonzero", "rejected",
                              "prec-theorem-applies", "prec-theorem-coherent-loss", "prec-theorem-product-loss",
                              "prec-theorem-trimmed-member", "evolve-svd", "evolve-svd-superposed", "evolve-svd-tagged",
-                             "evolve-cut-model-loss"]
+                             "evolve-cut-model-loss",
+                             "mixed-bs", "mixed-multi-group", "mixed-one-group-unlabelled", "mixed-one-group-labelled",
+                             "mixed-out", "mixed-sv", "mixed-svd-fast", "mixed-svd-generic",
+                             "mixed-svd-fast-default-precision", "mixed-svd-generic-default-precision"]
     rng = chk.rng
     n_lean = chk.pick(4, 8)
     drivers = [core.LeanDriver("C03") for _ in range(n_lean)]
@@ -2037,12 +2110,19 @@ def run(chk: core.Check):
                       "svd-shared-basis-states", "session-dm-new-support", "sv-weak-term", "svd-weak-term",
                       "dm-weak-coherent-term", "dm-weak-member"]
         before = {b: chk.branches.get(b, 0) for b in gen_shapes}
-        plan = chk.pick({"bs": 110, "sv": 90, "svd": 90, "svd-default": 70, "dm": 40, "session": 36, "bad": 30},
-                        {"bs": 1500, "sv": 1300, "svd": 1400, "svd-default": 600, "dm": 600, "session": 400, "bad": 300})
+        plan = chk.pick({"bs": 110, "sv": 90, "svd": 90, "svd-default": 70, "dm": 40, "session": 36, "bad": 30,
+                         "bs+mixed": 40, "sv+mixed": 30, "svd+mixed": 30, "svd-default+mixed": 24},
+                        {"bs": 1500, "sv": 1300, "svd": 1400, "svd-default": 600, "dm": 600, "session": 400, "bad": 300,
+                         "bs+mixed": 500, "sv+mixed": 400, "svd+mixed": 400, "svd-default+mixed": 200})
         cases = []
         for name, cnt in plan.items():
             for _ in range(cnt):
-                if name == "bad":
+                if name.endswith("+mixed"):
+                    # states mixing annotated and un-annotated photons, through every entry point
+                    k = name[:-6]
+                    cases.append(gen_case(rng, chk, "svd" if k == "svd-default" else k,
+                                          "default" if k == "svd-default" else "0", mixed=True))
+                elif name == "bad":
                     cases.append(gen_malformed(rng))
                 elif name == "svd-default":
                     cases.append(gen_case(rng, chk, "svd", "default"))
